@@ -47,10 +47,10 @@ type Service struct {
 	Name          string
 	Methods       []*Method
 	Register      func(mux *http.ServeMux, h Handler, eh ErrorHook) error // nil when no server code in the package
-	NewClient     func(baseURL string, o ClientOpts) Caller                 // nil when no client code in the package
-	NewMock       func() Handler                                            // nil when no mock in the package
-	ClientHelpers []string                                                  // discovered typed client-option helper names
-	CallHelpers   []string                                                  // discovered typed call-option helper names
+	NewClient     func(baseURL string, o ClientOpts) Caller               // nil when no client code in the package
+	NewMock       func() Handler                                          // nil when no mock in the package
+	ClientHelpers []string                                                // discovered typed client-option helper names
+	CallHelpers   []string                                                // discovered typed call-option helper names
 }
 
 // Package is one generated Go package.
